@@ -124,6 +124,10 @@ package dotgit
 //gvc:  grants checked: result == nil ==> f.#checked
 //gvc:end
 
+// The lock is an flock on the open file, not on its name: unlinking or
+// replacing the reference file while it is held lets the next writer lock a
+// different inode, so the compare-and-swap writer never removes or renames the
+// file it has opened (helpers without a contract are inlined: opt inline).
 //gvc:func (*DotGit).setRefRwfs
 //gvc:  props C14 C16
 //gvc:  theory int
@@ -134,6 +138,9 @@ package dotgit
 //gvc:  sink Write requires locked: ok ==> f.#locked
 //gvc:  sink Write requires checked: f.#checked
 //gvc:  sink Unlock requires never: false
+//gvc:  opt inline
+//gvc:  sink Remove requires keep: strid(arg0) != strid(fileName)
+//gvc:  sink Rename requires keep: strid(arg0) != strid(fileName) && strid(arg1) != strid(fileName)
 //gvc:end
 
 // Property C18 (an object is visible once its write has returned), the
